@@ -1,6 +1,9 @@
 import GS.Model.PauseResume
 import GSProofs.Lemmas.PauseResponder
 import GSProofs.Lemmas.PauseRequestor
+import GSProofs.Lemmas.PauseConservative
+import GSProofs.Lemmas.PauseWalk
+import GSProofs.C01
 /-!
 # C06 — Pausing and resuming an exchange does not change its result
 
@@ -31,7 +34,12 @@ reproduced on the real code by the `pauseres` harness and here on the model:
 * `requestor_skip_prefix_counterexample` — the C02 finding `skip-prefix-mismatch` met on resume.
 
 Proved for every link tree / store / pause point / operation history:
-`ingest_offline_noop`, `stale_dropped`, `stale_dropped_run`, `paused_offline` (an invariant of every
+`no_pause_is_requestor` (without pauses the model is `GS.Requestor`: C01 / C02 / C24 apply to the
+uninterrupted runs), `pause_resume_walk` / `pause_resume_store_sound` / `pause_resume_deliver_sound`
+(SAFETY for every history of messages — stale or not, honest or not —, Pause / Unpause calls and hook
+pauses: what the request reports is still a depth-first walk of the link tree with verified blocks: a
+pause or an early resume can cut a request short with an error, never make it deliver or store wrong
+data), `ingest_offline_noop`, `stale_dropped`, `stale_dropped_run`, `paused_offline` (an invariant of every
 history), `pause_effects`, `reopen_fresh`, `requestor_pause_resume_local` (the requestor's own store
 covers the traversal: any number of pauses, by hook at any block indices or through the API, and any
 resume timing give exactly the uninterrupted result), and the regression
@@ -323,6 +331,51 @@ theorem stale_dropped_run (st : List (Cid × Blk)) (lt : LT) (u : Nat) (hookAt :
     simp only
     rw [ih (fun m' hm' => hs m' (List.mem_cons_of_mem _ hm'))]
     rfl
+
+/-! ### without pauses: the requestor model; with pauses: still a verified depth-first walk -/
+
+/-- **C06.no_pause_is_requestor** (conservative extension).  With no hook pause configured and no Pause
+    call in the history, the pause/resume model IS the requestor model `GS.Requestor`: same reports, same
+    final state.  So the uninterrupted exchange that C06 compares with is the exchange of C01 / C02 / C24. -/
+theorem no_pause_is_requestor (st : List (Cid × Blk)) (lt : LT) (u : Nat) (msgs : List Requestor.Msg) :
+    PauseResume.exchange st lt u [] (msgs.map toOp) =
+      (plainOf (Requestor.exchange st lt u msgs).1, (Requestor.exchange st lt u msgs).2) :=
+  exchange_plain st lt u msgs
+
+/-- **C06.pause_resume_walk** (safety, every history).  For every link tree, honest local store, set of
+    hook-pause indices and EVERY history of response messages (any content with hash-keyed block maps:
+    honest, stale, forged), Pause and Unpause calls: the reports of the request — blocks written, loads
+    answered with data, nodes delivered, missing-block errors — form a depth-first walk of the link
+    tree (`Requestor.Steps`, the statement of C01 for uninterrupted requests). -/
+theorem pause_resume_walk (st : List (Cid × Blk)) (hst : HonestStore st) (lt : LT) (u : Nat)
+    (hookAt : List Nat) (ops : List PauseResume.Op)
+    (hwk : ∀ m, PauseResume.Op.msg m ∈ ops → WellKeyed m.blocks) :
+    Steps lt (PauseResume.exchange st lt u hookAt ops).2 (PauseResume.exchange st lt u hookAt ops).1.R.todo :=
+  exchange_steps_paused st hst lt u hookAt ops hwk
+
+/-- **C06.pause_resume_store_sound.**  Under any history of pauses, resumes and messages, every block
+    the requestor writes is the content of the link it is written under, and that link is a node of the
+    link tree being loaded at that moment (the write is immediately followed by its delivery). -/
+theorem pause_resume_store_sound (st : List (Cid × Blk)) (hst : HonestStore st) (lt : LT) (u : Nat)
+    (hookAt : List Nat) (ops : List PauseResume.Op)
+    (hwk : ∀ m, PauseResume.Op.msg m ∈ ops → WellKeyed m.blocks) :
+    ∀ c b, Ev.write c b ∈ (PauseResume.exchange st lt u hookAt ops).2 →
+      b = c ∧ ∃ pre post p l i,
+        (PauseResume.exchange st lt u hookAt ops).2 = pre ++ Ev.write c b :: Ev.block c p l i :: post ∧
+        ∃ n ∈ lt, n.cid = c ∧ n.path = p :=
+  GS.C01.steps_writes (pause_resume_walk st hst lt u hookAt ops hwk)
+
+/-- **C06.pause_resume_deliver_sound.**  Under any history of pauses, resumes and messages, the loads
+    answered with data are the loaded nodes of a depth-first walk of the link tree under some
+    availability answers, possibly cut short: pausing / resuming (and whatever arrives meanwhile) can
+    shorten what is delivered, it cannot reorder it or make it leave the link tree. -/
+theorem pause_resume_deliver_sound (st : List (Cid × Blk)) (hst : HonestStore st) (lt : LT) (u : Nat)
+    (hookAt : List Nat) (ops : List PauseResume.Op)
+    (hwk : ∀ m, PauseResume.Op.msg m ∈ ops → WellKeyed m.blocks) :
+    ∃ answers, GS.C01.blocksOf (PauseResume.exchange st lt u hookAt ops).2 =
+      (GS.C01.dfs lt answers).1.map (fun n => (n.cid, n.path)) := by
+  obtain ⟨as, _, h⟩ := GS.C01.steps_dfs (pause_resume_walk st hst lt u hookAt ops hwk)
+  exact ⟨as, h⟩
 
 /-! ### the requestor's own store covers the traversal -/
 
